@@ -307,6 +307,19 @@ func (w *World) BuildMsgs(a *Action) ([]sdk.Msg, string, error) {
 	case KGovRewardDenoms, KTxRewardDenoms:
 		return []sdk.Msg{&providertypes.MsgChangeRewardDenoms{Authority: w.accAddr(sender), DenomsToAdd: a.Denoms, DenomsToRemove: a.Denoms2}}, sender, nil
 	}
+	if a.Kind == KMulti {
+		var all []sdk.Msg
+		for i := range a.Sub {
+			sub := a.Sub[i]
+			sub.Sender = a.Sender
+			msgs, _, err := w.BuildMsgs(&sub)
+			if err != nil {
+				return nil, "", err
+			}
+			all = append(all, msgs...)
+		}
+		return all, sender, nil
+	}
 	if b, ok := extraBuilders[a.Kind]; ok {
 		return b(w, a)
 	}
@@ -403,9 +416,11 @@ func (w *World) observeTx(to *TxOutcome) {
 		return
 	}
 	switch to.Action.Kind {
-	case KCreateConsumer:
-		if id := EventAttr(to.Events, providertypes.EventTypeCreateConsumer, providertypes.AttributeConsumerId); id != "" {
-			w.Created = append(w.Created, id)
+	case KCreateConsumer, KMulti:
+		for _, e := range EventsOf(to.Events, providertypes.EventTypeCreateConsumer) {
+			if id := Attr(e, providertypes.AttributeConsumerId); id != "" {
+				w.Created = append(w.Created, id)
+			}
 		}
 	case KCreateValidator:
 		name := to.Action.Sender
